@@ -328,7 +328,7 @@ theorem sort_respects : ImplRespects true [.val .anys, .val .any] (eager sort) :
 /-! ## `sort_natural` -/
 
 theorem natKey_repEq {x x' : GoVal} (h : RepEq false x x') : natKey x = natKey x' := by
-  have hs := sprint_repEq_false h
+  have hs := sprintR_repEq h
   have hn := isNil_repEq_false h
   unfold natKey
   cases x <;> cases x' <;> simp [GoVal.isNil] at hn <;> simp only [hs]
